@@ -133,6 +133,8 @@ def _chunk_worker(payload):
     fn, prop, tier, root, idxs, extra, hang_s = payload
     faulthandler.enable()
     faulthandler.dump_traceback_later(hang_s, exit=True)
+    from . import findings
+    known = findings.Known(prop)
     out = []
     try:
         for idx in idxs:
@@ -141,7 +143,11 @@ def _chunk_worker(payload):
                 r["chunk"] = [idxs[0], idx]
                 out.append(r)
                 if "violation" in r:
-                    break
+                    fid = known.match(r)
+                    if fid:
+                        r["known"] = fid     # open finding: keep going
+                    else:
+                        break
             except Exception:  # harness bug, never a verdict
                 out.append({"idx": idx, "harness_error":
                             traceback.format_exc()})
@@ -222,7 +228,8 @@ def run_batch(fn, prop, tier, root, n_runs, extra=None, chunk=20,
             conn.close()
             p.join()
             results.extend(res)
-            if stop_on_violation and any("violation" in r for r in res):
+            if stop_on_violation and any("violation" in r
+                                         and "known" not in r for r in res):
                 stop = True
         if died is not None:
             for conn, (p, c) in live.items():
@@ -254,7 +261,8 @@ def write_json(path, obj):
 
 
 def replay_path(prop, seed):
-    return os.path.join(VERIF, "replays", f"{prop}-{seed}.json")
+    d = os.environ.get("VERIF_REPLAY_DIR") or os.path.join(VERIF, "replays")
+    return os.path.join(d, f"{prop}-{seed}.json")
 
 
 def write_evidence(prop, tier, seed, level, coverage, assumptions, wall_s,
@@ -272,7 +280,9 @@ def write_evidence(prop, tier, seed, level, coverage, assumptions, wall_s,
     }
     if extra:
         ev.update(jsonable(extra))
-    write_json(os.path.join(VERIF, "evidence", f"{prop}.json"), ev)
+    d = os.environ.get("VERIF_EVIDENCE_DIR") or os.path.join(VERIF,
+                                                              "evidence")
+    write_json(os.path.join(d, f"{prop}.json"), ev)
     return ev
 
 
